@@ -337,6 +337,9 @@ func walkHistory(prop string, res *RunResult, onQuery func(m *LogModel, op *plan
 				site = ir.HangKind()
 			}
 			vs = append(vs, Violation{Sig: prop + ":node-" + ab + ":" + site, Msg: fmt.Sprintf("incarnation %d ended abnormally (%s): %s", ii, ab, trimTo(ir.Stderr, 1500))})
+			// C01 is a fault-free property: a process that hung or died (reported above) did not shut down
+			// gracefully, so "everything accepted before is flushed" does not hold for what follows
+			return vs, m
 		}
 		if b := ir.Get("boot"); b != nil && b.Err != "" {
 			vs = append(vs, Violation{Sig: prop + ":boot-failed", Msg: b.Err})
